@@ -96,11 +96,15 @@ def build_universe(seed, tier):
     n_types, depth, n_defs = tier_params(tier)
     u = Universe(seed, n_types=n_types, max_depth=depth, n_defs=n_defs).build()
     c = Universe(CORPUS_SEED, n_types=40, max_depth=3, n_defs=10, prefix='K').build()
+    from universe import stress_defs, Adt, Seq, Array, Sum
+    sd = stress_defs('K')
+    st = [Adt(d, [], []) for d in sd]
+    st += [Seq('vec', st[0]), Seq('vec', st[1]), Array(st[2], 2), Seq('bs', st[4]), Sum('opt', [st[5]]), Seq('vec', st[7])]
     u.corpus_start = len(u.types)
-    u.corpus_rust = [t.rust() for t in c.types]
+    u.corpus_rust = [t.rust() for t in c.types] + [t.rust() for t in st]
     seen = set(t.rust() for t in u.types)
-    u.defs = u.defs + c.defs
-    for t in c.types:
+    u.defs = u.defs + c.defs + sd
+    for t in list(c.types) + st:
         if t.rust() not in seen:
             seen.add(t.rust()); u.types.append(t)
     return u
@@ -216,8 +220,10 @@ def answers_agree(impl, model):
         for x, y in zip(ta, tb):
             if x == y or y == '*':
                 continue
-            if ':' in x and ':' in y and x.split(':', 1)[0] == y.split(':', 1)[0]:
-                x, y = x.split(':', 1)[1], y.split(':', 1)[1]
+            for sep in (':', '='):
+                if sep in x and sep in y and x.split(sep, 1)[0] == y.split(sep, 1)[0]:
+                    x, y = x.split(sep, 1)[1], y.split(sep, 1)[1]
+                    break
             if '..' in y and hex_match(x, y):
                 continue
             return False
